@@ -6,7 +6,11 @@
 package c02
 
 import (
+	"archive/tar"
+	"bytes"
 	"fmt"
+	intar "github.com/influxdata/influxdb/pkg/tar"
+	"github.com/influxdata/influxdb/services/meta"
 	"os"
 	"path/filepath"
 	"strconv"
@@ -140,6 +144,9 @@ func genErrCase(r *fw.Rand, index string) fw.Case {
 			pts = append(pts, fmt.Sprintf("%s|%s|%d|%s=%s", meass[r.Intn(len(meass))], tagss[r.Intn(len(tagss))], genTime(r), fn, genVal(r, ty)))
 		}
 		ops = append(ops, "w "+strings.Join(pts, ";"))
+		if r.Chance(0.1) {
+			ops = append(ops, "snapfail")
+		}
 		if r.Chance(0.3) {
 			ops = append(ops, "snap")
 		}
@@ -188,8 +195,12 @@ func genCase(r *fw.Rand, index string) fw.Case {
 		case 0, 1, 2, 3, 4, 5:
 			ops = append(ops, "w "+genBatch(r, hasData))
 		case 6, 7:
-			ops = append(ops, "snap")
-			nfiles++
+			if r.Intn(5) == 0 {
+				ops = append(ops, "snapfail")
+			} else {
+				ops = append(ops, "snap")
+				nfiles++
+			}
 		case 8:
 			if nfiles >= 2 {
 				a := r.Intn(nfiles - 1)
@@ -443,6 +454,14 @@ func RunOps(ops []string) []string {
 			out[i] = "ok"
 			continue
 		}
+		if f[0] == "cowner" {
+			out[i] = copyOwner(f)
+			continue
+		}
+		if f[0] == "tarfault" {
+			out[i] = tarFault(filepath.Join(dir, fmt.Sprintf("tar%d", i)), f)
+			continue
+		}
 		if f[0] == "cw" || f[0] == "csnap" || f[0] == "cdel" || f[0] == "copy" {
 			if ce == nil {
 				out[i] = "bad-op"
@@ -458,6 +477,96 @@ func RunOps(ops []string) []string {
 		out[i] = h.Step(op)
 	}
 	return out
+}
+
+// copyOwner: the metadata step that follows a successful shard copy (meta.Data.CopyShardOwner,
+// applied by the meta nodes): `cowner <owners csv|-> <node>` answers the owner list afterwards.
+func copyOwner(f []string) (out string) {
+	defer func() {
+		if r := recover(); r != nil {
+			out = "panic:" + strings.ReplaceAll(fmt.Sprint(r), " ", "_")
+		}
+	}()
+	var owners []meta.ShardOwner
+	if f[1] != "-" {
+		for _, s := range strings.Split(f[1], ",") {
+			v, _ := strconv.ParseUint(s, 10, 64)
+			owners = append(owners, meta.ShardOwner{NodeID: v})
+		}
+	}
+	node, _ := strconv.ParseUint(f[2], 10, 64)
+	d := &meta.Data{Databases: []meta.DatabaseInfo{{Name: "db0", RetentionPolicies: []meta.RetentionPolicyInfo{{Name: "rp0", ReplicaN: 1, ShardGroups: []meta.ShardGroupInfo{
+		{ID: 1, Shards: []meta.ShardInfo{{ID: 7, Owners: []meta.ShardOwner{{NodeID: 1}}}}},
+		{ID: 2, Shards: []meta.ShardInfo{{ID: 8, Owners: []meta.ShardOwner{{NodeID: 2}}}, {ID: 1, Owners: owners}, {ID: 9, Owners: []meta.ShardOwner{{NodeID: 3}}}}},
+	}}}}}}
+	d.CopyShardOwner(1, node)
+	var got []string
+	for _, o := range d.Databases[0].RetentionPolicies[0].ShardGroups[1].Shards[1].Owners {
+		got = append(got, fmt.Sprint(o.NodeID))
+	}
+	others := fmt.Sprint(d.Databases[0].RetentionPolicies[0].ShardGroups[0].Shards[0].Owners, d.Databases[0].RetentionPolicies[0].ShardGroups[1].Shards[0].Owners, d.Databases[0].RetentionPolicies[0].ShardGroups[1].Shards[2].Owners)
+	if others != "[{1}] [{2}] [{3}]" {
+		return "COWNER-TOUCHED-OTHER-SHARDS " + strings.ReplaceAll(others, " ", "_")
+	}
+	if len(got) == 0 {
+		return "owners -"
+	}
+	return "owners " + strings.Join(got, ",")
+}
+
+// tarFault: the source side of a backup fails part-way: of n files in the directory being
+// streamed (pkg/tar.Stream, which Engine.Backup and Export use) the k-th cannot be opened.
+// The stream must not look complete to the destination, which accepts an archive that ends
+// with the two zero blocks of a tar trailer.
+func tarFault(dir string, f []string) (out string) {
+	defer func() {
+		if r := recover(); r != nil {
+			out = "panic:" + strings.ReplaceAll(fmt.Sprint(r), " ", "_")
+		}
+	}()
+	n, _ := strconv.Atoi(f[1])
+	k, _ := strconv.Atoi(f[2])
+	os.RemoveAll(dir)
+	if err := os.MkdirAll(dir, 0o755); err != nil {
+		return "err:" + err.Error()
+	}
+	defer os.RemoveAll(dir)
+	for i := 0; i < n; i++ {
+		if err := os.WriteFile(filepath.Join(dir, fmt.Sprintf("%09d-%09d.tsm", i+1, 1)), bytes.Repeat([]byte{byte('a' + i)}, 700+300*i), 0o644); err != nil {
+			return "err:" + err.Error()
+		}
+	}
+	var buf bytes.Buffer
+	seen := 0
+	err := intar.Stream(&buf, dir, "db0/rp0/1", func(fi os.FileInfo, rel, full string, tw *tar.Writer) error {
+		if seen == k {
+			os.Remove(full)
+		}
+		seen++
+		return intar.StreamFile(fi, rel, full, tw)
+	})
+	b := buf.Bytes()
+	complete := len(b) >= 1024
+	if complete {
+		for _, x := range b[len(b)-1024:] {
+			if x != 0 {
+				complete = false
+				break
+			}
+		}
+	}
+	switch {
+	case k < n && err == nil:
+		return "TARFAULT-NO-ERROR the stream of a directory with an unreadable file reported success"
+	case k < n && complete:
+		return "TARFAULT-LOOKS-COMPLETE the failed stream ends like a complete archive: the destination would accept a part of the shard"
+	case k >= n && (err != nil || !complete):
+		return fmt.Sprintf("TARFAULT-BROKEN a fault-free stream: err=%v complete=%v", err, complete)
+	}
+	if k < n {
+		return "refused"
+	}
+	return "complete"
 }
 
 func copyStep(ce *copyh.Env, f []string) (out string) {
